@@ -54,7 +54,9 @@ func (p *Pool[T]) Get(size int) (T, int) {
 
 // Put takes x and its size for future reuse.
 func (p *Pool[T]) Put(x T, size int) {
-	if size < p.stepSize {
+	// only exact size classes are reused: a capacity between two classes would be
+	// filed under a shard that serves larger requests.
+	if size < p.stepSize || !pmath.IsPowerOfTwo(size) {
 		return
 	}
 
